@@ -6,7 +6,7 @@ import numpy as np
 from vlib import scenario, bench
 
 LEVEL = "exploration"
-RULE = ("every valid member of every family (Hill/Shekel 0..999, Grishagin 1..100, GKLS 2..5 x 1..100, Shekel4 1..3, Rastrigin/XSquared 1..12, StronginC3: 2528 instances, "
+RULE = ("every valid member of every family (Hill/Shekel 0..999, Grishagin 1..100, GKLS 2..5 x 1..100, Shekel4 1..3, Rastrigin/XSquared 1..12 and 16, 31, 32, 33, 64, 100, StronginC3: 2540 instances, "
         "all of them in both tiers) is constructed and its public fields audited; for all 2 x 1000 Hill/Shekel table rows the real Calculate is tied to the documented "
         "closed form at seeded points and the table's minimum, maximum (value and location) and Lipschitz constant are recomputed from a dense grid + bounded polish of the "
         "closed form and of its derivative. Non-trivial: every instance; distinct = family member.")
@@ -186,8 +186,9 @@ def run_case(c):
 
 
 def finalize(obs, tier, stats):
-    if obs.get("instances", 0) != 2528:
-        return "only %d of 2528 instances audited" % obs.get("instances", 0), {}
+    need = len(bench.all_keys())
+    if obs.get("instances", 0) != need:
+        return "only %d of %d instances audited" % (obs.get("instances", 0), need), {}
     if obs.get("table_rows", 0) != 2000:
         return "only %d of 2000 table rows audited" % obs.get("table_rows", 0), {}
     return None, {}
